@@ -3512,3 +3512,138 @@ pub fn mk_raw_decoder(dict: u32, size: Option<u64>, memlimit: Option<usize>, sc:
         }
     }
 }
+
+
+/// The one-shot entry point `lzma_decompress_with_options` as glue: header -> parameters ->
+/// window (dictionary size, memory limit) -> decode -> flush. Abstract symbols; the window
+/// constructor is observed.
+fn lib_lzma_glue<const OPT: usize, const DICT: u32>() {
+    use crate::decode::lzbuffer::verif_h::{OBS_CIRC_CALLS, OBS_CIRC_DICT, OBS_CIRC_MEMLIMIT};
+    use std::sync::atomic::Ordering::Relaxed;
+    let mut t = Tape::<48>::new();
+    // concrete per instance: a symbolic dictionary size keeps the constructor's zero-size error
+    // path alive through the whole decode (out of memory at 6 GB)
+    let dict = DICT;
+    // the size in effect is concrete (1): a symbolic size makes the exit of the decoding loop
+    // undecidable for the symbolic-execution engine (out of memory); how the size field and the
+    // options select it is decided on arbitrary values in header_*
+    let hs = 1u64;
+    let ml_some = t.bool();
+    let ml = t.usize();
+    let pv_some = true;
+    let pv = 1u64;
+    let b: [u8; 7] = t.bytes::<7>();
+    let d4 = dict.to_le_bytes();
+    let s8 = hs.to_le_bytes();
+    let hlen = if OPT == 2 { 5 } else { 13 };
+    let mut f = [0u8; 24];
+    f[0] = 0x5D;
+    f[1] = d4[0];
+    f[2] = d4[1];
+    f[3] = d4[2];
+    f[4] = d4[3];
+    if OPT != 2 {
+        let mut i = 0;
+        while i < 8 {
+            f[5 + i] = s8[i];
+            i += 1;
+        }
+    }
+    let mut i = 0;
+    while i < 7 {
+        f[hlen + i] = b[i];
+        i += 1;
+    }
+    f[hlen + 7] = 0xEE;
+    let provided = if pv_some { Some(pv) } else { None };
+    let opts = Options {
+        unpacked_size: match OPT {
+            0 => UnpackedSize::ReadFromHeader,
+            1 => UnpackedSize::ReadHeaderButUseProvided(provided),
+            _ => UnpackedSize::UseProvided(provided),
+        },
+        memlimit: if ml_some { Some(ml) } else { None },
+        allow_incomplete: t.bool(),
+    };
+    // the size in effect
+    let size = match OPT {
+        0 => {
+            if hs == u64::MAX {
+                None
+            } else {
+                Some(hs)
+            }
+        }
+        _ => provided,
+    };
+    // instances are about the sized path with exactly one 2-byte literal
+    vassert!(size == Some(1), "harness: size in effect is 1");
+    set_new_script([script(2, K_LIT), script(20, K_LIT), script(20, K_LIT), script(20, K_LIT)]);
+    OBS_CIRC_CALLS.store(0, Relaxed);
+    let mut rd = ArrReader::<24>::new(f, hlen + 8);
+    let mut sink = RecSink::<4>::new();
+    let r = crate::lzma_decompress_with_options(&mut rd, &mut sink, &opts);
+    let ok = r.is_ok();
+    forget(r);
+    let ml_eff = if ml_some { ml } else { usize::MAX };
+    vassert!(OBS_CIRC_CALLS.load(Relaxed) == 1, "one-shot entry: builds exactly one window");
+    vassert!(OBS_CIRC_DICT.load(Relaxed) == if dict < 0x1000 { 0x1000 } else { dict as usize }, "one-shot entry: the window's dictionary size is the header's (at least 4096)");
+    vassert!(OBS_CIRC_MEMLIMIT.load(Relaxed) == ml_eff, "one-shot entry: options.memlimit reaches the window (none = unlimited)");
+    vassert!(ok, "one-shot entry: a well-formed sized stream decodes");
+    if ok {
+        vassert!(sink.len == 1 && sink.buf[0] == b[5] ^ b[6], "one-shot decoder: output delivered");
+        vassert!(sink.flushes >= 1 && sink.flushed_len == 1, "one-shot decoder: sink flushed after the last byte");
+        vassert!(rd.pos == hlen + 7, "one-shot decoder: reader left right after the payload (size-bounded decode)");
+    }
+    vcover!(ml_some && ml == 0, "limit_zero_passed_on");
+    vcover!(dict < 0x1000, "small_dict_clamped");
+}
+
+//@ harness props=C10,C08,C11,C12 tier=quick unwind=10 unwindset=process_mode:5,default_read_exact:4,extend_with:3,lib_lzma_glue:10 mem_gb=6 timeout=600 native=no opt_covers=small_dict_clamped
+//@ bound: lzma_decompress_with_options(ReadFromHeader) end to end on a 13-byte header (size field 1), dictionary size 0x800, preamble + one abstract 2-byte literal, symbolic memlimit option: window parameters observed
+#[cfg_attr(kani, kani::proof)]
+#[cfg_attr(kani, kani::stub(std::fmt::format, crate::verif_common::stub_format))]
+#[cfg_attr(kani, kani::stub(std::io::Error::is_interrupted, crate::verif_common::stub_not_interrupted))]
+#[cfg_attr(kani, kani::stub(crate::decode::lzma::DecoderState::process_next_inner, crate::decode::lzma::verif_h::abs_symbol))]
+#[cfg_attr(kani, kani::stub(crate::decode::lzbuffer::LzCircularBuffer::from_stream, crate::decode::lzbuffer::verif_h::circ_from_stream_observed))]
+#[cfg_attr(kani, kani::stub(crate::decode::lzma::DecoderState::new, crate::decode::lzma::verif_h::new_scripted_from_statics))]
+pub fn lib_lzma_decompress_glue_from_header_d800() {
+    lib_lzma_glue::<0, 0x800>()
+}
+
+//@ harness props=C10,C08,C11,C12 tier=quick unwind=10 unwindset=process_mode:5,default_read_exact:4,extend_with:3,lib_lzma_glue:10 mem_gb=6 timeout=600 native=no opt_covers=small_dict_clamped
+//@ bound: lzma_decompress_with_options(ReadFromHeader) end to end on a 13-byte header (size field 1), dictionary size 0x12345678, preamble + one abstract 2-byte literal, symbolic memlimit option: window parameters observed
+#[cfg_attr(kani, kani::proof)]
+#[cfg_attr(kani, kani::stub(std::fmt::format, crate::verif_common::stub_format))]
+#[cfg_attr(kani, kani::stub(std::io::Error::is_interrupted, crate::verif_common::stub_not_interrupted))]
+#[cfg_attr(kani, kani::stub(crate::decode::lzma::DecoderState::process_next_inner, crate::decode::lzma::verif_h::abs_symbol))]
+#[cfg_attr(kani, kani::stub(crate::decode::lzbuffer::LzCircularBuffer::from_stream, crate::decode::lzbuffer::verif_h::circ_from_stream_observed))]
+#[cfg_attr(kani, kani::stub(crate::decode::lzma::DecoderState::new, crate::decode::lzma::verif_h::new_scripted_from_statics))]
+pub fn lib_lzma_decompress_glue_from_header_d12345678() {
+    lib_lzma_glue::<0, 0x12345678>()
+}
+
+//@ harness props=C10,C08,C11,C12 tier=quick unwind=10 unwindset=process_mode:5,default_read_exact:4,extend_with:3,lib_lzma_glue:10 mem_gb=6 timeout=600 native=no opt_covers=small_dict_clamped
+//@ bound: lzma_decompress_with_options(UseProvided(Some(1))) end to end on a 5-byte header, dictionary size 0x800, preamble + one abstract 2-byte literal, symbolic memlimit option: window parameters observed
+#[cfg_attr(kani, kani::proof)]
+#[cfg_attr(kani, kani::stub(std::fmt::format, crate::verif_common::stub_format))]
+#[cfg_attr(kani, kani::stub(std::io::Error::is_interrupted, crate::verif_common::stub_not_interrupted))]
+#[cfg_attr(kani, kani::stub(crate::decode::lzma::DecoderState::process_next_inner, crate::decode::lzma::verif_h::abs_symbol))]
+#[cfg_attr(kani, kani::stub(crate::decode::lzbuffer::LzCircularBuffer::from_stream, crate::decode::lzbuffer::verif_h::circ_from_stream_observed))]
+#[cfg_attr(kani, kani::stub(crate::decode::lzma::DecoderState::new, crate::decode::lzma::verif_h::new_scripted_from_statics))]
+pub fn lib_lzma_decompress_glue_use_provided_d800() {
+    lib_lzma_glue::<2, 0x800>()
+}
+
+//@ harness props=C10,C08,C11,C12 tier=quick unwind=10 unwindset=process_mode:5,default_read_exact:4,extend_with:3,lib_lzma_glue:10 mem_gb=6 timeout=600 native=no opt_covers=small_dict_clamped
+//@ bound: lzma_decompress_with_options(UseProvided(Some(1))) end to end on a 5-byte header, dictionary size 0x12345678, preamble + one abstract 2-byte literal, symbolic memlimit option: window parameters observed
+#[cfg_attr(kani, kani::proof)]
+#[cfg_attr(kani, kani::stub(std::fmt::format, crate::verif_common::stub_format))]
+#[cfg_attr(kani, kani::stub(std::io::Error::is_interrupted, crate::verif_common::stub_not_interrupted))]
+#[cfg_attr(kani, kani::stub(crate::decode::lzma::DecoderState::process_next_inner, crate::decode::lzma::verif_h::abs_symbol))]
+#[cfg_attr(kani, kani::stub(crate::decode::lzbuffer::LzCircularBuffer::from_stream, crate::decode::lzbuffer::verif_h::circ_from_stream_observed))]
+#[cfg_attr(kani, kani::stub(crate::decode::lzma::DecoderState::new, crate::decode::lzma::verif_h::new_scripted_from_statics))]
+pub fn lib_lzma_decompress_glue_use_provided_d12345678() {
+    lib_lzma_glue::<2, 0x12345678>()
+}
+
